@@ -135,6 +135,10 @@ def gen_groups(r):
         groups.append((b, a))
         if r.random() < 0.5:
             groups.append((a, a))
+    if r.random() < 0.2:
+        # identifiers are opaque: a name that differs from another only by a trailing blank is another group
+        o, sf = r.choice(groups)
+        groups.append((o, sf + " ") if r.random() < 0.6 else (o + " ", sf))
     return groups
 
 
